@@ -65,7 +65,8 @@ def witness_search(tier, seed):
     rnd = random.Random(seed)
     texts = ["#TITLE;#ARTIST:x;", "#title:a;#TITLE:b;#Attacks:x:y;#DISPLAYBPM;#NOTES:a:b:c:d:e:f:g:h;#SUBTITLE:late;",
              "stray\n#VERSION:0.83;#TITLE:t;//c\n#NOTEDATA:;#credit:;#NOTES:0000;#AFTER:x;#NOTEDATA:;#NOTES2:11;",
-             "#A:1\n#B:2;", "#ATTACKS;", "#VERSION:1;#NOTEDATA:;#ATTACKS:a:b;#DISPLAYBPM;#NOTES:;"]
+             "#A:1\n#B:2;", "#ATTACKS;", "#VERSION:1;#NOTEDATA:;#ATTACKS:a:b;#DISPLAYBPM;#NOTES:;",
+             "#VERSION:0.83;#NOTEDATA:;#STEPSTYPE:x;#NOTES2:0001;#CREDIT:c;#NOTES:1000;#NOTEDATA:;#NOTES2:11;#AFTER:z;"]
     for path in sorted(glob.glob("/repo/testdata/**/*.s*", recursive=True)):
         try:
             texts.append(open(path, encoding="utf-8").read())
